@@ -3,13 +3,14 @@ NEXT Next
 CONSTANTS
   MaxGroups = 3
   MaxAlts = 2
-  Names <- NamesQuick
+  Names <- NamesTwo
+  Sorted = FALSE
   Universe <- Univ
   V2Depth = 2
   V2Operands <- OpsV2
   NB = 64
   Styles <- AllStyles
-  EmitMod = 16
+  EmitMod = 2
 INVARIANT ReadBack
 INVARIANT V1Algorithm
 INVARIANT AutoOnV1
